@@ -16,6 +16,7 @@ import numpy as np
 import z3
 
 NUM = (int, float, np.integer, np.floating, Fraction)
+DEBUG = bool(__import__('os').environ.get('SYMX_DEBUG'))
 
 
 class Abort(BaseException):
@@ -66,7 +67,7 @@ class Ctx:
 
     cur: "Ctx | None" = None
 
-    def __init__(self, base=(), prefix=(), feas_timeout_ms=10000, use_solver=True):
+    def __init__(self, base=(), prefix=(), feas_timeout_ms=4000, use_solver=True):
         self.base = list(base)
         self.prefix = list(prefix)
         self.trace = []  # (choice index, number of options)
@@ -92,15 +93,18 @@ class Ctx:
                 s.add(c)
             self._solver = s
             self._nside = 0
+            self._nextra = 0
         return self._solver
 
     def _sync(self):
         s = self.solver
-        lst = self.side + self.extra
-        # side/extra only ever grow; add the new ones permanently at the current level
-        while self._nside < len(lst):
-            s.add(lst[self._nside])
+        # side / extra only ever grow; add the new ones permanently
+        while self._nside < len(self.side):
+            s.add(self.side[self._nside])
             self._nside += 1
+        while self._nextra < len(self.extra):
+            s.add(self.extra[self._nextra])
+            self._nextra += 1
 
     def add_side(self, c):
         i = c.get_id()
@@ -126,6 +130,17 @@ class Ctx:
         self.trace.append((k, n))
         return k
 
+    def _feasible(self, cons):
+        """sat-check of (cone-of-influence slice of the path's assumptions) and cons.  unsat of the slice
+        is unsat of the whole; anything else is treated as feasible (explored conservatively)."""
+        ass, dropped = slice_assumptions(self.assumptions(), cons)
+        s = z3.Solver()
+        s.set("timeout", self.feas_timeout_ms)
+        for a in ass:
+            s.add(a)
+        s.add(cons)
+        return s.check()
+
     def branch(self, e):
         """Fork on a z3 Bool; only feasible sides are explored."""
         e = z3.simplify(e)
@@ -140,33 +155,33 @@ class Ctx:
             k = self.prefix[i]
         else:
             k = self.prefix[i] if i < len(self.prefix) else 0
+            first_unsat = False
             while k < 2:
                 if not self.use_solver:
                     break
-                self._sync()
-                s = self.solver
-                s.push()
-                s.add(opts[k][1])
+                if k == 1 and first_unsat:
+                    break  # pc feasible and pc /\ e infeasible => pc /\ not e feasible
                 t = time.time()
-                r = s.check()
+                r = self._feasible(opts[k][1])
                 dt = time.time() - t
                 STATS.feas_queries += 1
                 STATS.feas_s += dt
-                s.pop()
+                if dt > 1 and DEBUG:
+                    print(f"[slow feasibility {dt:.1f}s -> {r}] {str(opts[k][1])[:300]}", flush=True)
                 if r != z3.unsat:  # sat, or unknown (explored conservatively)
                     break
+                if k == 0:
+                    first_unsat = True
                 k += 1
             if k >= 2:
                 raise Abort()
         lab, cons = opts[k]
         self.pc.append(cons)
-        if self.use_solver:
-            self.solver.add(cons)
         self.trace.append((k, 2))
         return lab
 
 
-def explore(fn, base=(), max_paths=100000, use_solver=True, feas_timeout_ms=10000):
+def explore(fn, base=(), max_paths=100000, use_solver=True, feas_timeout_ms=4000):
     """Yield (result, ctx) for every feasible path of fn(ctx)."""
     prefix = []
     n = 0
@@ -260,6 +275,19 @@ class SB:
     def __invert__(self):
         return SB(z3.Not(self.e))
 
+    def __eq__(self, o):
+        if isinstance(o, (SB, bool, np.bool_)):
+            return SB(self.e == _sb(o))
+        return NotImplemented
+
+    def __ne__(self, o):
+        if isinstance(o, (SB, bool, np.bool_)):
+            return SB(self.e != _sb(o))
+        return NotImplemented
+
+    def __hash__(self):
+        return id(self)
+
     def __repr__(self):
         return f"SB({self.e})"
 
@@ -335,6 +363,8 @@ class SV:
 
     def _den(s):
         e = s.e
+        if not z3.is_rational_value(e):
+            e = z3.simplify(e)
         if z3.is_rational_value(e):
             if e.numerator_as_long() == 0:
                 raise ZeroDivisionError("division by literal zero in symbolic domain")
@@ -354,7 +384,13 @@ class SV:
         if not SV._ok(o):
             return NotImplemented
         s._den()
-        return SV(SV.lift(o).e / s.e)
+        n = SV.lift(o).e
+        q = n / s.e
+        if z3.is_rational_value(n) and n.numerator_as_long() != 0 and not z3.is_rational_value(s.e):
+            # sign lemma for a constant numerator (valid in the reals; z3 is weak on division by UF terms)
+            pos = n.numerator_as_long() > 0
+            cur().add_side(z3.And(z3.Implies(s.e > 0, q > 0 if pos else q < 0), z3.Implies(s.e < 0, q < 0 if pos else q > 0)))
+        return SV(q)
 
     def __neg__(s):
         return SV(-s.e)
@@ -363,7 +399,21 @@ class SV:
         return s
 
     def __abs__(s):
-        return SV(z3.If(s.e >= 0, s.e, -s.e))
+        e = s.e
+        if z3.is_rational_value(e):
+            return SV(e) if e.numerator_as_long() >= 0 else SV(-e)
+        ctx = Ctx.cur
+        if ctx is not None and ctx.use_solver:
+            # sign already decided by the path condition / preconditions: no If-term needed
+            ass = ctx.assumptions()
+            if valid(e >= 0, ass, 1500):
+                return s
+            if valid(e <= 0, ass, 1500):
+                return SV(-e)
+            if z3.is_const(e) and e.decl().kind() == z3.Z3_OP_UNINTERPRETED:
+                # plain input variable of undecided sign: fork (keeps terms free of If-atoms)
+                return s if ctx.branch(e >= 0) else SV(-e)
+        return SV(z3.If(e >= 0, e, -e))
 
     def __pow__(s, p):
         if isinstance(p, SV):
@@ -458,8 +508,11 @@ class SV:
                 rn, rd = math.isqrt(fr.numerator), math.isqrt(fr.denominator)
                 if rn * rn == fr.numerator and rd * rd == fr.denominator:
                     return SV(Fraction(rn, rd))
+        ps = _sqrt_normalised(s.e)
+        if ps is not None:
+            return ps
         r = uf("SQRT")(s.e)
-        cur().add_side(z3.And(r >= 0, r * r == s.e))
+        cur().add_side(z3.And(r >= 0, r * r == s.e, z3.Implies(s.e > 0, r > 0)))
         return SV(r)
 
     def log(s):
@@ -480,18 +533,31 @@ class SV:
         cur().add_side(a * a + b * b == 1)
         return SV(b)
 
+    def _hyp(s):
+        y = s.e
+        S, C, T = uf("SINH")(y), uf("COSH")(y), uf("TANH")(y)
+        ctx = cur()
+        ctx.add_side(z3.And(C >= 1, C * C - S * S == 1, T * C == S, T > -1, T < 1))
+        # true facts about sinh/cosh/tanh used as axioms: signs and sinh y cosh y > y (= sinh 2y > 2y)
+        ctx.add_side(z3.And(z3.Implies(y > 0, z3.And(S > 0, T > 0, S * C > y)),
+                            z3.Implies(y < 0, z3.And(S < 0, T < 0, S * C < y)),
+                            z3.Implies(y == 0, z3.And(S == 0, T == 0, C == 1))))
+        ch = y.children() if z3.is_app(y) and y.decl().kind() == z3.Z3_OP_MUL else []
+        if len(ch) == 2:
+            # sign-of-product lemma instance (valid in the reals; spares the solver a non-linear step)
+            u, w = ch
+            ctx.add_side(z3.And(z3.Implies(z3.And(u > 0, w > 0), y > 0), z3.Implies(z3.And(u < 0, w < 0), y > 0),
+                                z3.Implies(z3.And(u > 0, w < 0), y < 0), z3.Implies(z3.And(u < 0, w > 0), y < 0)))
+        return S, C, T
+
     def tanh(s):
-        r = uf("TANH")(s.e)
-        cur().add_side(z3.And(r > -1, r < 1))
-        return SV(r)
+        return SV(s._hyp()[2])
 
     def sinh(s):
-        return SV(uf("SINH")(s.e))
+        return SV(s._hyp()[0])
 
     def cosh(s):
-        r = uf("COSH")(s.e)
-        cur().add_side(r >= 1)
-        return SV(r)
+        return SV(s._hyp()[1])
 
     def log1p(s):
         return (1 + s).log()
@@ -507,6 +573,65 @@ class SV:
 
     def sign(s):
         return SV(z3.If(s.e > 0, rv(1), z3.If(s.e < 0, rv(-1), rv(0))))
+
+
+def _signed_abs(t, ctx):
+    ass = ctx.assumptions()
+    if valid(t >= 0, ass, 2000):
+        return SV(t)
+    if valid(t <= 0, ass, 2000):
+        return SV(-t)
+    return abs(SV(t))
+
+
+def _sqrt_normalised(e):
+    """sqrt(x) through the normal form n/d of x: perfect-square monomials are taken out as |.|
+    (sign decided from the path's assumptions when one query settles it); a non-constant
+    denominator is rationalised, sqrt(n/d) = sqrt(n d)/|d|, so that every remaining SQRT atom has a
+    polynomial argument in normal form (congruent calls share the atom, SQRT^2 rewrites to it)."""
+    from .canon import Canon, Poly
+    try:
+        cn = Canon()
+        ctx = cur()
+        cn.learn_rules(ctx.side)
+        r = cn.reduce_rf(cn.rf(e)).simplify_const_den()
+    except (ValueError, ZeroDivisionError, RecursionError):
+        return None
+    if r.n.is_zero():
+        return SV(0)
+
+    def mono_root(p):
+        if len(p.t) != 1:
+            return None
+        (mono, coef), = p.t.items()
+        if coef <= 0:
+            return None
+        rn, rd = math.isqrt(coef.numerator), math.isqrt(coef.denominator)
+        if rn * rn != coef.numerator or rd * rd != coef.denominator or any(ex % 2 for _, ex in mono):
+            return None
+        v = SV(Fraction(rn, rd))
+        for a, ex in mono:
+            at = _signed_abs(cn.atom_terms[a], ctx)
+            for _ in range(ex // 2):
+                v = v * at
+        return v
+
+    if r.d.is_const():
+        m = mono_root(r.n)
+        if m is not None:
+            return m
+        arg = cn.poly_to_z3(r.n)
+        if arg.eq(e):
+            return None
+        x = uf("SQRT")(arg)
+        ctx.add_side(z3.And(x >= 0, x * x == arg, z3.Implies(arg > 0, x > 0)))
+        return SV(x)
+    mn, md = mono_root(r.n), mono_root(r.d)
+    if mn is not None and md is not None:
+        return mn / md
+    dz = cn.poly_to_z3(r.d)
+    num = SV(cn.poly_to_z3(r.n * r.d)).sqrt()
+    return num / _signed_abs(dz, ctx)
 
 
 def _sv_from_str(sx):
@@ -574,9 +699,12 @@ def _check(s):
 def valid(e, assumptions=(), timeout_ms=10000):
     s = z3.Solver()
     s.set("timeout", timeout_ms)
+    ne = z3.Not(e)
+    if len(assumptions) > 3:
+        assumptions, _ = slice_assumptions(list(assumptions), ne)
     for a in assumptions:
         s.add(a)
-    s.add(z3.Not(e))
+    s.add(ne)
     r, dt = _check(s)
     STATS.feas_queries += 1
     STATS.feas_s += dt
@@ -635,7 +763,75 @@ def model_float(m, e, default=0.0):
         return default
 
 
+_SYMS = {}
+
+
+def symbols_of(e):
+    """Names of the uninterpreted constants occurring in a z3 term (cached per AST id)."""
+    i = e.get_id()
+    r = _SYMS.get(i)
+    if r is not None:
+        return r
+    out = set()
+    seen = set()
+    stack = [e]
+    while stack:
+        t = stack.pop()
+        ti = t.get_id()
+        if ti in seen:
+            continue
+        seen.add(ti)
+        if z3.is_app(t):
+            if t.num_args() == 0:
+                if t.decl().kind() == z3.Z3_OP_UNINTERPRETED:
+                    out.add(t.decl().name())
+            else:
+                stack.extend(t.children())
+    r = frozenset(out)
+    _SYMS[i] = (e, r)[1]
+    _SYMS_KEEP.append(e)
+    return r
+
+
+_SYMS_KEEP = []
+
+
+def slice_assumptions(assumptions, goal):
+    """Cone of influence: assumptions transitively sharing a constant symbol with the goal."""
+    syms = set(symbols_of(goal))
+    rest = [(a, symbols_of(a)) for a in assumptions]
+    chosen = []
+    changed = True
+    while changed:
+        changed = False
+        keep = []
+        for a, sa in rest:
+            if not sa or (sa & syms):
+                chosen.append(a)
+                if not sa <= syms:
+                    syms |= sa
+                    changed = True
+            else:
+                keep.append((a, sa))
+        rest = keep
+    return chosen, len(rest)
+
+
 def refute(label, assumptions, negated_goal, timeout_ms=60000, want_smt=False, tactics=True):
+    """Ask z3 for a counterexample; the query is first posed with the cone-of-influence slice of the
+    assumptions (unsat with fewer hypotheses is unsat with all); anything but unsat is re-posed in full."""
+    if not isinstance(negated_goal, bool) and z3.is_expr(negated_goal) and len(assumptions) > 3:
+        sliced, dropped = slice_assumptions(list(assumptions), negated_goal)
+        if dropped:
+            v = _refute(label, sliced, negated_goal, min(timeout_ms, 20000), want_smt, tactics=False)
+            if v.status == "unsat":
+                return v
+            STATS.queries -= 1
+            STATS.verdicts[v.status] -= 1
+    return _refute(label, assumptions, negated_goal, timeout_ms, want_smt, tactics)
+
+
+def _refute(label, assumptions, negated_goal, timeout_ms=60000, want_smt=False, tactics=True):
     """Ask z3 for a counterexample to the property: assumptions /\\ negated_goal.
 
     unsat => the obligation is discharged.  Returns Verdict.
